@@ -31,8 +31,8 @@ from vlib import mc, tlc, try_cxx
 
 ASSERT_FLAG = "-DSBEPP_ENABLE_ASSERTS_WITH_HANDLER"
 CONFIGS_QUICK = [("g++", "c++17"), ("clang++", "c++20")]
-CONFIGS_THOROUGH = [("g++", "c++11"), ("g++", "c++14"), ("g++", "c++17"), ("g++", "c++20"), ("g++", "c++2b"),
-                    ("clang++", "c++11"), ("clang++", "c++14"), ("clang++", "c++17"), ("clang++", "c++20"), ("clang++", "c++2b")]
+CONFIGS_THOROUGH = [("g++", "c++11"), ("g++", "c++17"), ("g++", "c++2b"),
+                    ("clang++", "c++14"), ("clang++", "c++20"), ("clang++-16", "c++2b")]
 INVARIANTS = ["KTypeOK", "TouchedWithinReq", "Disjoint", "FullViewOk", "WalkAgrees"]
 NPROC = 8
 
@@ -205,8 +205,8 @@ def run(v, tier, seed):
 
     with ThreadPoolExecutor(max_workers=2) as ex:
         fb = ex.submit(lambda: vlib.parallel([(p, c) for p in prep for c in configs],
-                                             lambda pc: (pc, build(pc[0][0], pc[0][1], pc[0][2], pc[0][4], pc[0][5], pc[1])), nproc=2))
-        fj = ex.submit(lambda: vlib.parallel(jobs, lambda j: j.run(), nproc=NPROC - 2))
+                                             lambda pc: (pc, build(pc[0][0], pc[0][1], pc[0][2], pc[0][4], pc[0][5], pc[1])), nproc=3))
+        fj = ex.submit(lambda: vlib.parallel(jobs, lambda j: j.run(), nproc=NPROC - 3))
         jobs = fj.result()
         t_tlc = time.time() - t0
         built = fb.result()
@@ -295,16 +295,18 @@ def run(v, tier, seed):
     v.part("reported_after_access", executions=late_total, of_which_writes=late_write, kinds=late_kinds, samples=late_samples,
            note="handler invoked, but only after memory outside the view had been accessed (the fault was recorded and the "
                 "instruction resumed); by the letter of C10 not a violation (the access is reported), listed for the maintainers")
-    v.add(states=max(states, 1), transitions=max(trans, 1), evaluations=evals, distinct_nontrivial=nvec,
+    v.add(states=max(states, 1), transitions=max(trans, 1), evaluations=evals,
+          distinct_nontrivial=outcomes[0] + outcomes[3] + outcomes[1] + outcomes[4],
           traces_validated_against_impl=replayed,
           rule="one vector per (image, view length n, operation): images = wire images of %d messages x %d schemas (both byte orders) "
                "x shapes, pristine and with one blockLength / numInGroup / length overwritten (value+1, +k, far beyond); n = %s; "
                "operations = every accessor kind applicable (leaf get/set, view obtainment, array ops, header access, group "
                "size/resize/begin/end/[]/front/back/iterator steps, nested forward iteration, data access and every mutator, "
-               "size_bytes, five cursor wrappers from the documented positions) incl. navigation from the message view. Every vector is "
-               "distinct by construction; each is executed twice (end-aligned, start-aligned) per build configuration (%d)."
+               "size_bytes, sbepp::visit, five cursor wrappers from the documented positions) incl. navigation from the message view. Vectors are "
+               "distinct by construction (%d in all); non-trivial = the outcome constrains the handler (must_assert or must_ok; `either` "
+               "only forbids a silent access). Each vector is executed twice (end-aligned, start-aligned) per build configuration (%d)."
                % (len(schemas[0]["messages"]), len(schemas), "every n in 0..full for pristine images, footprint boundaries -1/0/+1 for hostile ones"
-                  if thorough else "0, 1, every footprint boundary -1/0/+1, full-1, full", len(configs)),
+                  if thorough else "0, 1, full-1, full and every footprint end just outside / just inside", nvec, len(configs)),
           samples=samples or ["(no sample)"], exhaustive=False)
     v.assumptions += ["little-endian x86-64 Linux host; 4 KiB pages; a fault inside the inaccessible areas is resumed after opening the page",
                       "TLC and the installed compilers are trusted",
